@@ -75,4 +75,25 @@ pub(crate) mod verif_kani {
         assert!(v[k].index as u32 == start as u32 + k as u32);
         assert!(v[k].value == (bytes[2 * k] as u16) * 256 + bytes[2 * k + 1] as u16);
     }
+    /// complete within the protocol: any bit payload of up to 2000 bits (250 bytes), any position: the item is (start + pos, bit pos of the body)
+    #[kani::proof]
+    pub(crate) fn k_bit_iterator_next() {
+        let bytes: [u8; 250] = kani::any();
+        let start: u16 = kani::any();
+        let count: u16 = kani::any();
+        let pos: u16 = kani::any();
+        kani::assume(count >= 1 && count <= 2000 && (start as u32) + (count as u32) <= 65536 && pos <= count);
+        let nbytes = (count as usize + 7) / 8;
+        let mut it = BitIterator { bytes: &bytes[..nbytes], range: AddressRange { start, count }, pos };
+        let r = it.next();
+        if pos == count {
+            assert!(r.is_none());
+            assert!(it.pos == pos);
+        } else {
+            let x = r.unwrap();
+            assert!(x.index as u32 == start as u32 + pos as u32);
+            assert!(x.value == ((bytes[pos as usize / 8] >> (pos % 8)) & 1 == 1));
+            assert!(it.pos == pos + 1);
+        }
+    }
 }
